@@ -19,6 +19,8 @@ inductive Call
   | startNextCycle (ok : Bool)
   | ourState (mustClose : Bool)
   | send (ev : SendEv) (res : Option Bytes)
+  | trailingData (nonEmpty : Bool)
+  | freshConn
   | cbEnd
   | otherCall (name : String)
   deriving Repr
@@ -29,12 +31,22 @@ def Call.kind : Call → String
   | .startNextCycle _ => "start_next_cycle"
   | .ourState _ => "our_state"
   | .send _ _ => "send"
+  | .trailingData _ => "trailing_data"
+  | .freshConn => "h11.Connection()"
   | .cbEnd => "<end of callback>"
   | .otherCall n => n
 
 structure TS where
   calls : List Call
   desync : Option String := none
+  /-- recorded items (h11 calls and callback ends) consumed so far -/
+  pos : Nat := 0
+  /-- `pos` right after each `next_event() -> EndOfMessage`: where a `dispatch` must sit in the
+      ONE interleaved record of the implementation -/
+  eomPos : List Nat := []
+
+/-- consume the head of the transcript -/
+def TS.adv (t : TS) (rest : List Call) : TS := { t with calls := rest, pos := t.pos + 1 }
 
 def TS.fail (t : TS) (want : String) : TS :=
   match t.desync with
@@ -43,7 +55,7 @@ def TS.fail (t : TS) (want : String) : TS :=
     let got := match t.calls with
       | [] => "<nothing>"
       | c :: _ => c.kind
-    { calls := [], desync := some s!"model calls {want}, transcript has {got}" }
+    { t with calls := [], desync := some s!"model calls {want}, transcript has {got}" }
 
 def lowerHeaders (h : List (String × String)) : List (String × String) :=
   h.map fun (k, v) => (k.toLower, v)
@@ -59,26 +71,70 @@ def sendEvMatches : SendEv → SendEv → Bool
 def transcriptH11 : H11 TS :=
   { receiveData := fun t d =>
       match t.calls with
-      | .receiveData d' :: rest => if d == d' then { t with calls := rest } else t.fail "receive_data(other bytes)"
+      | .receiveData d' :: rest => if d == d' then t.adv rest else t.fail "receive_data(other bytes)"
       | _ => t.fail "receive_data",
     nextEvent := fun t =>
       match t.calls with
-      | .nextEvent ev :: rest => ({ t with calls := rest }, ev)
+      | .nextEvent ev :: rest =>
+        let t' := t.adv rest
+        (if ev == .endOfMessage then { t' with eomPos := t'.eomPos ++ [t'.pos] } else t', ev)
       | _ => (t.fail "next_event", .needData),
     startNextCycle := fun t =>
       match t.calls with
-      | .startNextCycle ok :: rest => ({ t with calls := rest }, ok)
+      | .startNextCycle ok :: rest => (t.adv rest, ok)
       | _ => (t.fail "start_next_cycle", true),
     ourStateMustClose := fun t =>
       match t.calls with
-      | .ourState mc :: rest => ({ t with calls := rest }, mc)
+      | .ourState mc :: rest => (t.adv rest, mc)
       | _ => (t.fail "our_state", false),
     send := fun t ev =>
       match t.calls with
       | .send ev' res :: rest =>
-        if sendEvMatches ev ev' then ({ t with calls := rest }, res)
+        if sendEvMatches ev ev' then (t.adv rest, res)
         else (t.fail s!"send({repr ev})", some [])
-      | _ => (t.fail s!"send({repr ev})", some []) }
+      | _ => (t.fail s!"send({repr ev})", some []),
+    trailingData := fun t =>
+      match t.calls with
+      | .trailingData ne :: rest => (t.adv rest, ne)
+      | _ => (t.fail "trailing_data", false),
+    fresh := fun t =>
+      match t.calls with
+      | .freshConn :: rest => t.adv rest
+      | _ => t.fail "h11.Connection()" }
+
+/-! ### the h11 contract (HapModel/Pump.lean: NextOk, CycleOk, SendOk, SendLegal) on the recorded calls -/
+
+def hstateOf (s : String) : HState :=
+  match s with
+  | "IDLE" => .idle
+  | "SEND_RESPONSE" => .sendResponse
+  | "SEND_BODY" => .sendBody
+  | "DONE" => .done
+  | "MUST_CLOSE" => .mustClose
+  | "CLOSED" => .closed
+  | "ERROR" => .error
+  | "MIGHT_SWITCH_PROTOCOL" => .mightSwitch
+  | _ => .switched
+
+/-- (our_state, their_state) before and after one recorded call -/
+abbrev St4 := HState × HState × HState × HState
+
+/-- `some reason` if the recorded call breaks a clause of `H11Contract`; the Bool says whether it is a
+    refusal of a send the state machine permits (`NoFramingRefusal` does not hold on this call) -/
+def contractCheck (c : Call) (s : St4) : Option String × Bool :=
+  let (o, t, o', t') := s
+  let same := o' == o && t' == t
+  match c with
+  | .receiveData _ => (if same then none else some "receive_data changed a state", false)
+  | .nextEvent ev => (if decide (NextOk o t ev o' t') then none else some s!"next_event {repr ev |>.pretty 60}: {repr o},{repr t} -> {repr o'},{repr t'}", false)
+  | .startNextCycle ok => (if decide (CycleOk o t ok o' t') then none else some s!"start_next_cycle {ok}: {repr o},{repr t} -> {repr o'},{repr t'}", false)
+  | .ourState _ => (if same then none else some "reading our_state changed a state", false)
+  | .trailingData _ => (if same then none else some "reading trailing_data changed a state", false)
+  | .send ev res =>
+    (if decide (SendOk o t ev res.isSome o' t') then none else some s!"send {res.isSome}: {repr o},{repr t} -> {repr o'},{repr t'}",
+     res.isNone && decide (SendLegal o ev))
+  | .freshConn => (if o' == .idle && t' == .idle then none else some "a new connection is not IDLE/IDLE", false)
+  | _ => (none, false)
 
 /-! ### recorded dispatch outcomes -/
 
@@ -99,12 +155,16 @@ structure DRec where
       own connection object must have assembled exactly these from ITS h11 events -/
   body : Option Bytes := none
   target : Option Bytes := none
+  /-- how many h11 calls / callback ends the implementation had made when it entered this `dispatch` -/
+  h11Pos : Option Nat := none
 
 structure DQ where
   recs : List DRec
   desync : Option String := none
   /-- `selfGone` of the dispatch record consumed last -/
   selfGone : Bool := false
+  /-- `h11Pos` of the dispatch records consumed, in order -/
+  seen : List Nat := []
 
 def paramsOf (rec : DRec) : Params DQ :=
   { urlparse := fun _ => match rec.urlparse with
@@ -142,7 +202,8 @@ def tdisp : Disp DQ := fun w req body =>
       | some _, none => some "dispatch is called without a request, the implementation passed one"
       | none, _ => none
     let bad := orElse badCalls (orElse badBody badTarget)
-    let w1 : World DQ := { w with st := { recs := rest, desync := orElse w.st.desync bad, selfGone := rec.selfGone } }
+    let w1 : World DQ := { w with st := { recs := rest, desync := orElse w.st.desync bad, selfGone := rec.selfGone,
+                                          seen := w.st.seen ++ (match rec.h11Pos with | some p => [p] | none => []) } }
     .ok (dispatch Gen.routes P w1 req body)
 
 /-- `_close_unpaired_sessions` as recorded: this connection is torn down (flag cleared, closed)
@@ -192,16 +253,35 @@ def sendEvOf (j : Json) : R SendEv := do
   | "ConnectionClosed" => pure .connectionClosed
   | e => throw s!"unknown send event {e}"
 
+/-- the trailing `{"s":[our,their,our',their']}` of a recorded call, if present -/
+def statesOf (j : Json) : Option St4 :=
+  match j with
+  | .arr a =>
+    match a.toList.getLast? with
+    | some o =>
+      match o.getObjVal? "s" with
+      | .ok (.arr #[.str a, .str b, .str c, .str d]) => some (hstateOf a, hstateOf b, hstateOf c, hstateOf d)
+      | _ => none
+    | none => none
+  | _ => none
+
+def dropStates (l : List Json) : List Json :=
+  match l.getLast? with
+  | some o => if (o.getObjVal? "s").toOption.isSome then l.dropLast else l
+  | none => l
+
 def callOf (j : Json) : R Call := do
   match j with
   | .arr a =>
-    match a.toList with
+    match dropStates a.toList with
     | [.str "receive_data", d] => pure (.receiveData (← asHex d))
     | [.str "next_event", e] => pure (.nextEvent (← evOf e))
     | [.str "start_next_cycle", .bool ok] => pure (.startNextCycle ok)
     | [.str "our_state", .bool mc] => pure (.ourState mc)
     | [.str "send", e, .null] => pure (.send (← sendEvOf e) none)
     | [.str "send", e, r] => pure (.send (← sendEvOf e) (some (← asHex r)))
+    | [.str "trailing_data", .bool ne] => pure (.trailingData ne)
+    | [.str "fresh"] => pure .freshConn
     | [.str "cb_end"] => pure .cbEnd
     | .str n :: _ => pure (.otherCall n)
     | _ => throw "bad call"
@@ -226,7 +306,8 @@ def drecOf (j : Json) : R DRec := do
                    verifiedAfter := ← getBool v "verified_after", uuidAfter := ← getBool v "uuid_after" : HRec })
   pure { urlparse := up, handler := h, isAdmin := ← getBool j "is_admin",
          selfGone := (j.getObjValAs? Bool "self_gone").toOption.getD false,
-         body := ← optHex j "body", target := ← optHex j "target" }
+         body := ← optHex j "body", target := ← optHex j "target",
+         h11Pos := (j.getObjValAs? Nat "h11_pos").toOption }
 
 def exnName : Exn → String
   | .unprivileged => "UnprivilegedRequestException"
@@ -249,14 +330,18 @@ abbrev C := Conn TS DQ
 /-- after each callback the transcript must be at the end-of-callback marker -/
 def endCallback (c : C) : C :=
   match c.h.calls with
-  | .cbEnd :: rest => { c with h := { c.h with calls := rest } }
+  | .cbEnd :: rest => { c with h := c.h.adv rest }
   | _ => { c with h := c.h.fail "nothing more in this callback" }
 
 def handle (j : Json) : R Json := do
   let op ← getStr j "op"
   match op with
   | "transcript" =>
-    let calls ← (← getArr j "h11").toList.mapM callOf
+    let rawCalls := (← getArr j "h11").toList
+    let calls ← rawCalls.mapM callOf
+    let checks := (calls.zip (rawCalls.map statesOf)).filterMap fun (c, s) => s.map (contractCheck c)
+    let broken := checks.filterMap (·.1)
+    let framing := (checks.filter (·.2)).length
     let recs ← (← getArr j "disp").toList.mapM drecOf
     let cbs ← getArr j "callbacks"
     let w : World DQ := { st := { recs := recs }, verified := ← getBool j "verified",
@@ -267,7 +352,13 @@ def handle (j : Json) : R Json := do
     for cb in cbs do
       let kind ← getStr cb "cb"
       let (c1, o) ← match kind with
-        | "data" => pure (dataReceived transcriptH11 tdisp ttd (fun b => some b) fuel c (← getHex cb "data"))
+        | "data" =>
+          -- inside a session the harness records what `hap_crypto.decrypt()` returned for this call
+          let dec : Bytes → Option Bytes ← match cb.getObjVal? "dec" with
+            | .ok .null => pure (fun _ => none)
+            | .ok (.str s) => do let b ← hexOf s; pure (fun _ => some b)
+            | _ => pure (fun b => some b)
+          pure (dataReceived transcriptH11 tdisp ttd dec fuel c (← getHex cb "data"))
         | "ready" =>
           let res ← outcomeOf cb
           pure (runCallback transcriptH11 tdisp ttd id c (.ready res))
@@ -281,8 +372,17 @@ def handle (j : Json) : R Json := do
       per := per.push (Json.mkObj [("escaped", esc), ("closing", Json.bool c.closing),
         ("writes", Json.num (c.out.filter Out.isWrite).length)])
     let desync := orElse c.h.desync c.w.st.desync
+    -- one interleaved record: every dispatch of the implementation sits right behind the
+    -- EndOfMessage the model dispatched on (and nowhere else)
+    let interleave : Option String :=
+      if desync.isSome || recs.any (·.h11Pos.isNone) then none
+      else if c.h.eomPos == c.w.st.seen then none
+      else some s!"the model dispatches at transcript positions {c.h.eomPos}, the implementation at {c.w.st.seen}"
     pure (Json.mkObj [
-      ("desync", match desync with | some s => Json.str s | none => Json.null),
+      ("desync", match orElse desync interleave with | some s => Json.str s | none => Json.null),
+      ("contract_checked", Json.num checks.length),
+      ("contract_broken", Json.arr (broken.map Json.str).toArray),
+      ("framing_refusals", Json.num framing),
       ("per_callback", Json.arr per),
       ("out", Json.arr (c.out.map jout).toArray),
       ("closing", Json.bool c.closing), ("registered", Json.bool c.registered),
